@@ -823,6 +823,13 @@ class Class(CanContainImportsDocumentable):
             return {}
 
 
+def is_class_private_name(name: str) -> bool:
+    """
+    Whether python mangles this name inside a class body (C{__name} -> C{_Class__name}):
+    such members never override, and are never overridden by, a member of another class.
+    """
+    return name.startswith('__') and not name.endswith('__')
+
 class Inheritable(Documentable):
     documentation_location = DocLocation.PARENT_PAGE
 
@@ -830,7 +837,7 @@ class Inheritable(Documentable):
 
     def docsources(self) -> Iterator[Documentable]:
         yield self
-        if not isinstance(self.parent, Class):
+        if not isinstance(self.parent, Class) or is_class_private_name(self.name):
             return
         for b in self.parent.mro(include_self=False):
             if self.name in b.contents:
